@@ -474,3 +474,11 @@ def instances(tier):
     out.append(snr_instance((3,), given_current=True))
     out.append(snr_instance((2, 2), axis=-1, given_current=True))
     return out
+
+
+_instances_before_simplex = instances
+
+
+def instances(tier):       # noqa: F811
+    from .common import simplex_lemma_instances
+    return _instances_before_simplex(tier) + simplex_lemma_instances('C19')
